@@ -137,7 +137,7 @@ def evaluate(case, obs):
                              {"event": CS._short(ev), "expected": [kind, val], "sought": sought})
                 first_data_call = False
                 continue
-            recs = ev.get("records", [])
+            recs = [r for r in ev.get("records", []) if r["tp"] == k]
             if pos is None:
                 if recs:
                     out.fail("start_position", "records_instead_of_error", {"expected_error": val, "offsets": [r["offset"] for r in recs]})
@@ -297,6 +297,32 @@ def lookup_fault_cases(shard, nshards, acts=("error",)):
                                     [0.001], 13, 2.0)
 
 
+LATE_TIMES = [0.03, 0.06, 0.1, 0.15, 0.2, 0.25, 0.3, 0.34, 0.4, 0.5]
+
+
+def late_leader_cases(shard, nshards, stride=1):
+    """Two partitions; the judged one has no leader until a swept instant while the committed-offset lookup for
+    the other one is held 0.3 s at the coordinator: its own lookup is registered while that request is in flight
+    and must still be answered from the group's committed offset."""
+    i = 0
+    for g in GRID:
+        if g[3] not in ("assign_group", "subscribe_group") or g[4] != 3:
+            continue
+        for t in LATE_TIMES:
+            i += 1
+            if i % stride or (i // stride) % nshards != shard:
+                continue
+            case = make_case(g, False, 0.0, 0.6, [{"sel": "offset_fetch", "k": 0, "act": "delay", "code": 0, "delay": 0.3}],
+                             [0.001], 17, 2.0)
+            case["logs"][0]["nparts"] = 2
+            case["logs"].append({"topic": "t0", "nparts": 2, "partition": 1, "log_start": 0,
+                                 "batches": [dict(SPEC_DATA), dict(SPEC_DATA)]})
+            case["committed"]["t0:1"] = 2
+            case["env"] = [{"at": 0.0, "ev": "leader_gone", "topic": "t0", "partition": 0, "back_at": t}]
+            case["tasks"][0].insert(0, ["sleep", 0.9])
+            yield case
+
+
 def _run_with_initial(case):
     return execute(case)
 
@@ -309,5 +335,7 @@ def campaigns(tier):
             Campaign("lookup_fault", "enum", execute=execute, setup=CS.setup, exhaustive=True,
                      cases=(lambda s, n: lookup_fault_cases(s, n, ("error", "drop", "no_reply"))) if th
                      else (lambda s, n: lookup_fault_cases(s, n))),
+            Campaign("late_leader", "enum", execute=execute, setup=CS.setup, exhaustive=True,
+                     cases=(lambda s, n: late_leader_cases(s, n, 1)) if th else (lambda s, n: late_leader_cases(s, n, 2))),
             Campaign("start_sim", "hyp", execute=execute, strategy=strategy,
                      examples=20000 if th else 1000, setup=CS.setup, max_wall=900 if th else 80, shrink_wall=30)]
